@@ -13,7 +13,7 @@ func genC05(w *World, res *CheckResult) {
 	res.Obls = append(res.Obls, selectObls(g.obls, `/post\[(stack|scopes|ip)\]$`, `inv-(init|pres)\[(pops|count|i|stack)\]`, `^vm\.VM\.Run/pre-sat$`, `/cover$`)...)
 	res.Assumptions = append(res.Assumptions, g.notes...)
 	res.Functions = append(res.Functions, g.funcs...)
-	for _, n := range []string{"compiler.encode", "compiler.compiler.patchJump", "compiler.compiler.calcBackwardJump"} {
+	for _, n := range []string{"compiler.encode", "compiler.compiler.patchJump", "compiler.compiler.calcBackwardJump", "compiler.compiler.makeConstant"} {
 		fn, ct := w.Func(n), w.Contracts[n]
 		if fn == nil || ct == nil {
 			res.Obls = append(res.Obls, missingObl(n+"/exists", "function or contract missing"))
